@@ -537,6 +537,22 @@ _fam("log", "log", "house h\nlogger lg\n", "  log one", [
     ("on", "on update"),
 ], post="    loggee .a.b\nframer f be active\nframe a\n")
 _SERVER_PRE = "house h\ninit .srv.src with gamma 3\n"
+# `per` and `for` both feed the server's init data: here they carry keys the server really uses (period, prefix),
+# so losing either clause's data shows in the dumped tasker (no at / to clause: those would set the same keys;
+# no rx / tx: `per` before rx/tx is the recorded parseDirect finding of the server families below)
+_SERVER_CFG = "house h\ninit .cfg.logs with prefix \"/tmp/verif-nosrv/cfg\"\ninit .cfg.t with period 0.75\n"
+_fam("server/cfg", "server", _SERVER_CFG, "server s", [
+    ("be", "be inactive"),
+    ("in", "in front"),
+    ("per", "per period 0.5"),
+    ("for", "for prefix in .cfg.logs"),
+], post="framer f be active\nframe a\n")
+_fam("server/cfg2", "server", _SERVER_CFG, "server s", [
+    ("be", "be active"),
+    ("in", "in back"),
+    ("per", 'per prefix "/tmp/verif-nosrv/direct" dha2 5'),
+    ("for", "for period in .cfg.t"),
+], post="framer f be active\nframe a\n")
 _fam("server", "server", _SERVER_PRE, "server s", [
     ("at", "at 0.5"),
     ("be", "be inactive"),
@@ -1316,3 +1332,52 @@ def gen_need_lines():
             yield kind, "go c if %s and %s" % (partner, need)
         yield kind, "go c if not %s and not .p.q" % need
         yield kind, "let me if .p.q and not %s" % need
+
+
+# ----------------------------------------------------------------------------- C16 multi-file programs
+
+MULTI = odict([
+    ("loadfrag", dict(parent="""house h
+init .t.count with 0
+framer main be active first setup
+  frame setup
+    do rec with tag "setup" at enter
+    put 1 into .t.count
+    load part.flo
+    inc .t.count with 10
+    go next if elapsed >= 0.25
+  frame finish
+    do rec with tag "finish" at enter
+    put 99 into .t.finished
+    bid stop me
+""", fragname="part.flo", fragment="""    inc .t.count with 5
+    do rec with tag "part" at enter
+    put 7 into .t.extra
+""", run=True)),
+    ("loadfrag2", dict(parent="""house h
+framer main be active first a
+  frame a
+    load part.flo
+  frame b in a
+    do rec with tag "b" at enter
+    go next if .t.x == 3 +- 0.5
+  frame c
+    do rec with tag "c" at enter
+""", fragname="part.flo", fragment="""    do rec with tag "a" at enter
+    set .t.x with 3
+    go b if elapsed >= 0.125 and .t.x >= 3
+""", run=True)),
+])
+
+
+def fragment_variants(fragment):
+    """Layouts of a `load`ed fragment: every single edit / all-at-once variant, each ending with a newline and
+    without one - so that a continuation line (connective or backslash) is the very last line of the file.
+    Yields (label, text)."""
+    cmds = parse_commands(fragment)
+    last = len(cmds) - 1
+    vs = list(all_at_once(cmds)) + [(l, st) for l, st in single_edits(cmds) if not any(v.get("post") for v in st.values())]
+    for label, styles in vs:
+        text = render_variant(cmds, styles)
+        for ending, what in (("\n", "newline at end of file"), ("", "no newline at end of file")):
+            yield "fragment %s; %s" % (label, what), text.rstrip("\n") + ending
